@@ -129,7 +129,7 @@ def judge(stdout, workers, producers, items, mode):
 def run_probe(ctx, binary, tsan, compiler, variant, args, expect_known=None):
     workers, producers, items, mode, delay = args
     env = {"TSAN_OPTIONS": "halt_on_error=0 report_signal_unsafe=0 exitcode=0"} if tsan else {}
-    rc, so, se = sh([binary] + [str(a) for a in args], timeout=120 if tsan else 60, env=env)
+    rc, so, se = sh([binary] + [str(a) for a in args], timeout=45 if tsan else 20, env=env)
     key = (compiler, tsan, variant) + tuple(args)
     nontrivial = producers >= 2 or workers >= 2 or mode == 1
     ctx.case(key, nontrivial=nontrivial)
@@ -203,6 +203,8 @@ def run(ctx):
         for (comp, tsan, variant), b in sorted(bins.items()):
             sets = arg_sets(ctx, rng, n if variant == "shutdown" else 2)
             for a in sets:
+                if len(ctx.violations) >= 6:          # enough concrete failing inputs: stop searching
+                    break
                 run_probe(ctx, b, tsan, comp, variant, a)
     # 3 schedule replay of the real headers against the extracted LTS
     try:
